@@ -15,6 +15,13 @@ import copy
 MAX_DEPTH = 3
 
 
+def unparse_(e):
+    try:
+        return ast.unparse(e)
+    except Exception:
+        return ''
+
+
 def _strip_doc(body):
     if body and isinstance(body[0], ast.Expr) and isinstance(body[0].value, ast.Constant) and isinstance(body[0].value.value, str):
         return body[1:]
@@ -575,6 +582,44 @@ class Inliner(object):
         call = calls[0]
         kind, hnode, recv = self.helper_for(func, call, local_defs)
         self._last = hnode
+        decos = [unparse_(d).split('.')[-1] for d in hnode.decorator_list]
+        if 'contextmanager' in decos and all(d in ('contextmanager', 'staticmethod', 'classmethod') for d in decos):
+            # `with cm(args): BODY` with a new @contextmanager helper: the helper's body with BODY in the place of its `yield`
+            if isinstance(st, (ast.With,)) and len(st.items) == 1 and st.items[0].context_expr is call:
+                bound = self._bind(hnode, call, recv)
+                ys = [x for x in ast.walk(ast.Module(body=hnode.body, type_ignores=[])) if isinstance(x, (ast.Yield, ast.YieldFrom))]
+                if bound is not None and len(ys) == 1 and isinstance(ys[0], ast.Yield):
+                    mapping, prelude = bound
+                    body = [_Subst(mapping).visit(copy.deepcopy(s)) for s in _strip_doc(hnode.body)]
+                    done = [False]
+                    target = st.items[0].optional_vars
+
+                    def block(stmts):
+                        out = []
+                        for x in stmts:
+                            if isinstance(x, ast.Expr) and isinstance(x.value, ast.Yield) and not done[0]:
+                                done[0] = True
+                                if target is not None:
+                                    val = x.value.value if x.value.value is not None else ast.Constant(value=None)
+                                    out.append(ast.copy_location(ast.Assign(targets=[copy.deepcopy(target)], value=val), st))
+                                out.extend(st.body)
+                                continue
+                            for fld in ('body', 'orelse', 'finalbody'):
+                                seq = getattr(x, fld, None)
+                                if isinstance(seq, list) and seq and isinstance(seq[0], ast.stmt) and not isinstance(x, (ast.FunctionDef, ast.ClassDef)):
+                                    setattr(x, fld, block(seq))
+                            if isinstance(x, ast.Try):
+                                for h in x.handlers:
+                                    h.body = block(h.body)
+                            out.append(x)
+                        return out
+                    new_body = block(body)
+                    if done[0] and not any(isinstance(x, (ast.Yield, ast.YieldFrom)) for y in new_body for x in ast.walk(y)
+                                           if not any(x is z for b_ in st.body for z in ast.walk(b_))):
+                        for y in new_body:
+                            ast.fix_missing_locations(y)
+                        return list(prelude) + new_body
+            return None
         if any(isinstance(d, ast.Name) and d.id not in ('staticmethod', 'classmethod') or
                not isinstance(d, ast.Name) for d in hnode.decorator_list):
             return None
